@@ -1,11 +1,33 @@
-(* Correspondence for C09: DB-level histories (Run_DB.check_C09) and client probes (Run_Http.check_C09). *)
+(* Correspondence for C09: DB-level histories (Run_DB.check_C09), client probes
+   (Run_Http.check_C09), and gated races of a conditional get with an activate. *)
 From Coq Require Import List Bool NArith.
-From Setec Require Import Corr.Run_DB Corr.Run_Http.
+Import ListNotations.
+From Setec Require Import Base.SMap Acl.Glob Server.KV Server.DB Corr.Run_DB Corr.Run_Http.
+Open Scope N_scope.
 
-Inductive case := C9Hist (c : Run_DB.case) | C9Probes (c : Run_Http.case).
+Inductive case :=
+| C9Hist (c : Run_DB.case)
+| C9Probes (c : Run_Http.case)
+| C9Race (st : disk_dump) (n : name) (v : N) (res : result V).
+    (* on the database [st], GetConditional n v by a caller allowed everything, while another
+       goroutine tries to run Activate n v in the middle of it; [res] is what the get answered *)
+
+Definition race_super : caller :=
+  {| principal := 1; rules := [ {| r_actions := [AGet; AInfo; APut; AActivate; ADelete]; r_secrets := [[42]] |} ] |}.
+Definition race_env : env := {| save_ok := true; audit := AOk |}.
+
+(* "at that moment": the answer must be the model's answer in the state before the activate or in
+   the state after it - the two instants a call that is atomic with respect to writes can see *)
+Definition race_ok (st : disk_dump) (n : name) (v : N) (res : result V) : bool :=
+  let s0 := {| kv := kvs_of_disk st; gen := 1; audit_dead := false |} in
+  let r0 := snd (fst (db_step N.eqb race_env s0 race_super (OGetCond n v))) in
+  let s1 := fst (fst (db_step N.eqb race_env s0 race_super (OActivate n v))) in
+  let r1 := snd (fst (db_step N.eqb race_env s1 race_super (OGetCond n v))) in
+  result_beq res r0 || result_beq res r1.
 
 Definition check (c : case) : bool :=
   match c with
   | C9Hist h => Run_DB.check_C09 h
   | C9Probes p => Run_Http.check_C09 p
+  | C9Race st n v res => race_ok st n v res
   end.
